@@ -81,7 +81,7 @@ class LoadFamily:
         if storm:
             rt['chaos']['pause_us'] = rng.choice([30, 100, 300])
         if churn:
-            rt['chaos']['pause_us'] = rng.choice([100, 300, 600])
+            rt['chaos']['pause_us'] = rng.choice([300, 600, 1200])
         L = {'id': '', 'family': 'load', 'sched': f'N{N}-cap{cap}-w{workers}-{mode}', 'seed': rng.randrange(1 << 30), 'runtime': rt, 'engine': {'store': 'mem', 'keep_processes': True, 'cache_cap': cap},
              'models': [json.dumps(m) for m in models], 'responder': {'mode': mode, 'order': 'seeded', 'rules': rules, 'max_rounds': 100000}, 'ops': ops, 'watchdog_ms': 90000}
         solos = []
